@@ -22,16 +22,18 @@ CASE_TIMEOUT = 3600
 RULE = ("kernels = mc.gen.c19_kernels.corpus(tier): families A..G, each the full "
         "product of its listed parameter sets (1-3 term assignments over active "
         "xa, ya, u(i), u(i-1), u(i+1), v(i), w(i,j) with passive coefficients "
-        "2.0, p, q(i), -, p*q(i), /p, /q(i); loops 1..n, n..1:-1, 2..n-1, 1..n:2 "
-        "[thorough: n..1:-2, 2..n:2, inner 1..i], nested once; IF blocks on "
-        "passive conditions with/without ELSE; sequences of <=2 [thorough <=3] "
-        "assignments spread over those containers) x every non-empty set of the "
+        "2.0, p, q(i), -, p*q(i), /p, /q(i); loops 1..n, n..1:-1, 2..n-1, 1..n:2, "
+        "2..n:2, m-n..n:3, m-1..1:-3 [thorough: n..1:-2, inner 1..i], nested once; "
+        "IF blocks on passive conditions with/without ELSE; sequences of <=2 "
+        "[thorough <=3] assignments spread over those containers; array-notation "
+        "statements; bodies with local active variables) x every non-empty set of the "
         "real variables of the body for which the body is legal tangent-linear "
         "code; one element = (kernel, active set); it is non-trivial when PSyAD "
         "accepts it and the tangent-linear map differs from the identity; each "
         "accepted element is executed on every unit vector, 2*unit vector, the "
         "sum of the unit vectors and a prime-weighted vector of the active state "
-        "for p in {2,-3} x n in 1..4 (only the valuations the body can observe)")
+        "for p in {2,-3} x n in 1..4 (only the valuations the body can observe; the "
+        "2*unit/sum/weighted vectors for the largest n)")
 ASSUMPTIONS = [
     "E1 (mc/fortsem) over Fractions is the reference semantics of the "
     "tangent-linear source and of the adjoint source (both parsed with "
@@ -42,8 +44,8 @@ ASSUMPTIONS = [
     "harness error)",
     "PSyAD issue #1458 (documented): bodies that write a passive variable which "
     "active code also reads are counted and not run",
-    "passive variables: one that the tangent-linear code leaves unchanged must be "
-    "left unchanged by the adjoint code; a passive variable that the kernel itself "
+    "passive variables: one that no statement of the kernel assigns must be left "
+    "unchanged by the adjoint code; a passive variable that the kernel itself "
     "recomputes is only recorded when the two codes disagree (loop reversal)",
     "TangentLinearError, NotImplementedError and VisitorError are clean refusals; "
     "any other exception is counted as a crash and not judged (the text only "
@@ -201,10 +203,15 @@ def signature(key, items, active, res):
     classes of the wrong matrix entries."""
     stmts = G.statements(items)
     classes = "+".join(res.get("classes", []))
-    odd = sorted({k for k in loop_kinds(items) if k in ("c3", "r3")})
+    kinds = set(loop_kinds(items))
+    odd = sorted(k for k in kinds if k in ("c3", "r3"))
     if odd and res["kind"] in ("not-transpose", "adjoint-ub:bounds"):
         return (f"{res['kind']}|loop(step not +-1, lower bound an expression)|"
                 f"{'+'.join(odd)}")
+    if ("e2" in kinds and res.get("nval") == 1
+            and res["kind"] in ("not-transpose", "adjoint-ub:bounds")):
+        # n = 1: every `do .. = 2, n, 2` loop of the kernel has zero trips
+        return f"{res['kind']}|zero-trip loop(step not +-1) iterates in the adjoint|e2"
     if (res["kind"] == "not-transpose" and len(stmts) == 1
             and subtracts_own_lhs(stmts[0])
             and res["classes"] == [f"{stmts[0][1][0]}.diag"]):
